@@ -70,6 +70,8 @@ def tasks(tier, seed):
     for c in cfgs(tier):
         for sc in ('fresh', 'same', 'interleaved', 'split', 'reuse'):
             T.append((sc, json.dumps(c, sort_keys=True)))
+        if len(c['M']) > 1:
+            T.append(('shared', json.dumps(c, sort_keys=True)))
     T.append(('float', json.dumps(cfgs(tier)[1], sort_keys=True)))
     T.append(('float', json.dumps(cfgs(tier)[5], sort_keys=True)))
     return T
@@ -188,6 +190,21 @@ def scenario_case(rep, scenario, cfg):
             _, u3, s3, _ = run_once(c, cfg, ctl=ctlA, xs=xs)
             # clean up the class-level attribute registration so that later cases start from the same process state
             return [((u1, s1), (u2, s2)), ((u1, s1), (u3, s3))]
+        if scenario == 'shared':
+            # three controllers built from one shared controller-parameter dictionary: B (the configuration), a single-level one, B again.
+            # the parameters a user passes in are the user's: building a controller must not change what the next one is built from
+            import copy
+
+            shared = {}
+            cfgS = dict(cfg, _shared=shared)
+            _, u1, s1, _ = run_once(c, cfgS, xs=xs)
+            before = copy.deepcopy({k: v for k, v in shared['cp'].items() if k != 'hook_class'})
+            single = dict(cfgS, M=cfg['M'][:1], NP=1)
+            run_once(c, single, xs=[z3.Real('y0')] * cfg['n'])
+            _, u2, s2, _ = run_once(c, cfgS, xs=xs)
+            after = {k: v for k, v in shared['cp'].items() if k != 'hook_class'}
+            out['params_unchanged'] = (before == after, before, after)
+            return [((u1, s1), (u2, s2))]
         if scenario == 'reuse':
             # a controller that has already done a DIFFERENT run (other initial value, other start time) must behave like a fresh one
             ys = [z3.Real(f'y{i}') for i in range(n)]
@@ -211,6 +228,9 @@ def scenario_case(rep, scenario, cfg):
     paths = explore(fn, max_paths=2000)
     rep.paths += len(paths)
     rep.decisions += sum(len(p.decisions) for p in paths)
+    if 'params_unchanged' in out and not out['params_unchanged'][0]:
+        # (not a clause of the property by itself -- only the results below are judged -- but worth a note in the evidence)
+        rep.note(f'{name}: building the controllers changed the shared controller parameters: {out["params_unchanged"][1]} -> {out["params_unchanged"][2]}')
     for i, p in enumerate(paths):
         A_ = [z3.And(x >= -1, x <= 1) for x in xs] + list(p.assume) + list(p.pc)
         for j, (Ares, Bres) in enumerate(p.result):
@@ -238,6 +258,19 @@ def float_runs(scenario, cfg, x=0.7321):
     if scenario in ('same', 'interleaved'):
         ctl, a, _ = go()
         _, b, _ = go(ctl)
+        return [(a, b)]
+    if scenario == 'shared':
+        shared = {}
+        cS = dict(cfg, _shared=shared)
+        c1, _ = wr.build(cS, float_mode=True)
+        _, a, _ = go(c1)
+        cA, _ = wr.build(dict(cS, M=cfg['M'][:1], NP=1), float_mode=True)
+        PA = cA.MS[0].levels[0].prob
+        uA = PA.dtype_u(PA.init)
+        uA[:] = x
+        cA.run(uA, 0.0, cfg['dt'])
+        c2, _ = wr.build(cS, float_mode=True)
+        _, b, _ = go(c2)
         return [(a, b)]
     if scenario == 'reuse':
         ctl, _a, _ = go()
